@@ -1,0 +1,33 @@
+// Copyright 2017 The Go Authors. All rights reserved.
+// Use of this source code is governed by a BSD-style
+// license that can be found in the LICENSE file.
+
+//go:build verif
+
+package db
+
+import "time"
+
+// VerifHook, when set by a verification harness, is called inside
+// NewUpload after the latest upload ID has been read
+// ("newupload.read", with that ID), after the new ID has been inserted
+// but before the transaction commits ("newupload.inserted", with the
+// new ID) and after the commit ("newupload.committed"). It may block,
+// which lets a harness step two concurrent creators through every
+// interleaving.
+var VerifHook func(point, id string)
+
+func verifPoint(point, id string) {
+	if h := VerifHook; h != nil {
+		h(point, id)
+	}
+}
+
+// VerifSetNow replaces the clock used to pick the day part of upload
+// IDs (nil restores time.Now).
+func VerifSetNow(f func() time.Time) {
+	if f == nil {
+		f = time.Now
+	}
+	now = f
+}
